@@ -70,6 +70,8 @@ pub struct GenCfg {
     /// Non-stave mode: the last data-carrying trigger of a page (1 page in 3) is topped up with lane data
     /// until the page holds exactly this many words (0 = off): pages at and around the size limits.
     pub fill_page_words: usize,
+    /// Every link (not only the first) emits the frame plan.
+    pub plan_all_links: bool,
 }
 
 /// One planned readout frame: the lanes with their chips, and the seed of the pixel-hit content.
@@ -106,6 +108,7 @@ impl GenCfg {
             alias_staves: false,
             frame_plan: Vec::new(),
             fill_page_words: 0,
+            plan_all_links: false,
         }
     }
 }
@@ -731,7 +734,7 @@ pub fn gen_conforming(cfg: &GenCfg, rng: &mut Rng) -> Stream {
             cdw_index: 0,
             last_internal_bc: None,
             packets: Vec::new(),
-            plan: if links.is_empty() { cfg.frame_plan.iter().cloned().collect() } else { Default::default() },
+            plan: if links.is_empty() || cfg.plan_all_links { cfg.frame_plan.iter().cloned().collect() } else { Default::default() },
         };
         let n_hbf = rng.range(cfg.hbfs.0, cfg.hbfs.1) as usize;
         // orbits are arbitrary; the only rule is that consecutive HBFs of a link differ. Three
